@@ -203,6 +203,18 @@ def parseSlice (s : List Char) : Option (List SliceEntry × List Char) :=
     | _ => none
   | _ => none
 
+/-- `_part_dimension` raises `ValueError`: the text starts with `[` + digits/colons/commas + `]`
+    (the regex matches) but an entry is not `n`, `a:b`, `a:`, `:b`, `:` — two colons
+    (`dmin,dmax = dim.split(':')`) or an empty entry (`int('')`). -/
+def sliceRaises (s : List Char) : Bool :=
+  match s with
+  | '[' :: t =>
+    let body := t.takeWhile (fun c => c.isDigit ∨ c = ':' ∨ c = ',')
+    match t.dropWhile (fun c => c.isDigit ∨ c = ':' ∨ c = ',') with
+    | ']' :: _ => if body.isEmpty then false else ((body.splitOn ',').mapM sliceEntry).isNone
+    | _ => false
+  | _ => false
+
 /-- `:[0-9.]*[sdfeb]+` (`Parser.part_format`) -/
 def parseFormat (s : List Char) : Option (List Char × List Char) :=
   match s with
@@ -230,17 +242,21 @@ def scanTemplate : Nat → List Char → List Piece
   | fuel + 1, c :: rest =>
     if c = '{' then
       -- Parser(code=rest): part_reference `^(\s*({([^}]*)}))`, part_slice (inside part_reference
-      -- and once more), part_format
+      -- and once more), part_format.  A malformed slice raises (`sliceRaises`), also when no
+      -- reference was found: `p.part_slice()` is called on the unchanged code then.
+      let noRef : List Piece := if sliceRaises rest then [.raise] else .text c :: scanTemplate fuel rest
       let r0 := rest.dropWhile isWs
       match r0 with
       | '{' :: t =>
         let path := t.takeWhile (· ≠ '}')
         match t.dropWhile (· ≠ '}') with
         | '}' :: r1 =>
+          if sliceRaises r1 then [.raise] else
           let (sl, r2) := match parseSlice r1 with
             | some (l, r) => (some l, r)
             | none => (none, r1)
           -- second part_slice call (overwrites when it matches again)
+          if sliceRaises r2 then [.raise] else
           let (sl, r2) := match parseSlice r2 with
             | some (l, r) => (some l, r)
             | none => (sl, r2)
@@ -254,8 +270,8 @@ def scanTemplate : Nat → List Char → List Piece
             | '}' :: r4 => .hole path sl fm :: scanTemplate fuel r4
             | [] => [.raise]
             | _ => .text c :: scanTemplate fuel rest
-        | _ => .text c :: scanTemplate fuel rest
-      | _ => .text c :: scanTemplate fuel rest
+        | _ => noRef
+      | _ => noRef
     else .text c :: scanTemplate fuel rest
 
 /-- The slice entries as the solver passes them to `slice_value`, the format as it is put into
